@@ -39,9 +39,12 @@ CHILD = os.path.join(os.path.dirname(os.path.abspath(__file__)), "modfile_child.
 MAGIC_RE = re.compile(r"_magic_number = (\d+)")
 
 
+ENTRIES = ("moddir", "modfile", "lookup", "lookup-callable")     # entry points leading to one module path
+
+
 class Child:
-    def __init__(self, root, now, use_writer):
-        self.p = subprocess.Popen([sys.executable, CHILD, root, str(now), "1" if use_writer else "0"],
+    def __init__(self, root, now, use_writer, entry="moddir"):
+        self.p = subprocess.Popen([sys.executable, CHILD, root, str(now), "1" if use_writer else "0", entry],
                                   stdin=subprocess.PIPE, stdout=subprocess.PIPE, stderr=subprocess.PIPE, text=True, bufsize=1)
         self.at = None
         self.final = None
@@ -119,7 +122,8 @@ class Child:
 
 
 class World:
-    def __init__(self, base, use_writer, reuse=False):
+    def __init__(self, base, use_writer, reuse=False, entry="moddir"):
+        self.entry = entry
         self.reuse = reuse        # process p of the model is ONE long-lived OS process (until it crashes)
         self.resting = {}
         self.root = tempfile.mkdtemp(prefix="mv-mf-", dir=base)
@@ -222,7 +226,7 @@ class World:
             if c.dead:
                 raise MachineryError("resting child %s died: %s" % (p, c.final))
         else:
-            c = Child(self.root, self.now, self.use_writer)
+            c = Child(self.root, self.now, self.use_writer, self.entry)
         self.children[p] = c
         evs = [{"ev": "begin", "p": p}]
         if c.at is None:          # finished without a single file-system call
@@ -286,7 +290,8 @@ def run_history(args):
     """One seeded history; returns list of events (each with `post`)."""
     seed, steps, maxprocs, use_writer, crash_prob, base, plan = args
     rng = random.Random(seed)
-    w = World(base, use_writer, reuse=bool(seed % 2) or (plan is not None and plan[0] == "same"))
+    entry = ENTRIES[(seed // 2) % 4] if plan is None else (plan[2] if len(plan) > 2 else "moddir")
+    w = World(base, use_writer, reuse=bool(seed % 2) or (plan is not None and plan[0] == "same"), entry=entry)
     events = []
 
     def add(evs):
@@ -311,7 +316,7 @@ def run_history(args):
             return events
         if plan is not None:
             # exhaustive single-writer crash plan: (k, mode) = die at the k-th call of the first construction
-            k, mode = plan
+            k, mode = plan[:2]
             add(w.begin(1))
             n = 0
             while 1 in w.children:
@@ -407,8 +412,8 @@ ACT_POINT = {"CheckDir": "direxists", "MkDir": "mkdir", "StatSrc": "statsrc", "E
 
 
 def replay_behaviour(args):
-    steps, use_writer, base, reuse = args
-    w = World(base, use_writer, reuse=reuse)
+    steps, use_writer, base, reuse, entry = args
+    w = World(base, use_writer, reuse=reuse, entry=entry)
     try:
         prev = None
         for idx, (act, st) in enumerate(steps):
@@ -533,6 +538,11 @@ def check(run):
         for k in range(1, 14):
             for mode in ("before", "after", "mid") + (("fail", "mid-fail") if not uw else ()):
                 jobs.append(("plan", 2, uw, (0, 0, 2, uw, 0.0, run.scratch, (k, mode))))
+                # the other entry points to the same module path (module_filename=, TemplateLookup with module_directory /
+                # modulename_callable): every crash point in the thorough tier, a rotating third of them otherwise
+                for ei, entry in enumerate(ENTRIES[1:]):
+                    if thorough or (k + ei) % 3 == {"before": 0, "after": 1, "mid": 2, "fail": 0, "mid-fail": 1}[mode]:
+                        jobs.append(("plan", 2, uw, (0, 0, 2, uw, 0.0, run.scratch, (k, mode, entry))))
     # one long-lived process, every sequence of <= 2 history steps between its constructions (and a third construction)
     gaps = [(a,) for a in ENV_OPS] + [(a, b) for a in ENV_OPS for b in ENV_OPS]
     third = [(), ("delmod",), ("oldgen-newer",), ("tick", "modify-now")]
@@ -541,7 +551,7 @@ def check(run):
         for gi, g in enumerate(gaps):
             for ti, t3 in enumerate(third):
                 if thorough or ti == gi % len(third):
-                    jobs.append(("same", 2, uw, (0, 0, 2, uw, 0.0, run.scratch, ("same", [g, t3]))))
+                    jobs.append(("same", 2, uw, (0, 0, 2, uw, 0.0, run.scratch, ("same", [g, t3], ENTRIES[gi % 4]))))
                     n_same += 1
     run.extra["same_process_histories"] = n_same
     nh = 40 if not thorough else 600
@@ -621,7 +631,7 @@ def check(run):
         if len(files) < num:
             raise MachineryError("simulate produced %d of %d behaviours" % (len(files), num))
         behaviours = [core.parse_simulate_file(os.path.join(simdir, fn)) for fn in files]
-        outs = list(pool.map(replay_behaviour, [(b, uw, run.scratch, bi % 2 == 1) for bi, b in enumerate(behaviours)]))
+        outs = list(pool.map(replay_behaviour, [(b, uw, run.scratch, bi % 2 == 1, ENTRIES[(bi // 2) % 2]) for bi, b in enumerate(behaviours)]))
         for b, mm in zip(behaviours, outs):
             replayed += 1
             run.transitions += len(b)
